@@ -49,6 +49,63 @@ def _probe_measuring():
     return h("\x01\x01\x01", 2) == 3, h("a\u4e16a", 2) == 3
 
 
+def _probe_mouse_region():
+    """Is the window's mouse handler installed for the whole body when there is a LEFT margin?
+    (`x_max = xpos + width - total_margin_width` also subtracts the left margins: the rightmost
+    `left margin width` columns of the body get no handler; proposed fix C11-mouse-region.)"""
+    import asyncio
+
+    from prompt_toolkit.application import Application
+    from prompt_toolkit.application.current import set_app
+    from prompt_toolkit.buffer import Buffer
+    from prompt_toolkit.input import DummyInput
+    from prompt_toolkit.layout import Layout
+    from prompt_toolkit.layout.containers import Window
+    from prompt_toolkit.layout.controls import BufferControl
+    from prompt_toolkit.layout.margins import NumberedMargin
+    from prompt_toolkit.layout.mouse_handlers import MouseHandlers
+    from prompt_toolkit.layout.screen import Screen, WritePosition
+    from prompt_toolkit.output import DummyOutput
+
+    res = []
+
+    async def go():
+        win = Window(BufferControl(Buffer()), left_margins=[NumberedMargin()])
+        app = Application(layout=Layout(win), input=DummyInput(), output=DummyOutput())
+        with set_app(app):
+            mh = MouseHandlers()
+            win.write_to_screen(Screen(), mh, WritePosition(0, 0, 10, 1), "", False, None)
+            res.append(mh.mouse_handlers[0][9].__name__ != "dummy_callback")
+
+    asyncio.run(go())
+    return bool(res and res[0])
+
+
+def _source_constants():
+    """Literal constants the model mirrors, read from the SOURCE TEXT of the current tree (ast):
+    the "infinite" height of UIContent.get_height_for_line (`10**8`, all occurrences must agree) and
+    NumberedMargin.get_width for a ladder of line counts (behavioural: max(3, len(str(n)) + 1))."""
+    import ast
+    import inspect
+
+    from prompt_toolkit.layout.controls import UIContent
+    from prompt_toolkit.layout.margins import NumberedMargin
+
+    src = inspect.getsource(UIContent.get_height_for_line)
+    tree = ast.parse("class _X:\n" + src if src.startswith("    ") else src)
+    pows = set()
+    for node in ast.walk(tree):
+        if isinstance(node, ast.BinOp) and isinstance(node.op, ast.Pow) and \
+                isinstance(node.left, ast.Constant) and isinstance(node.right, ast.Constant):
+            pows.add(node.left.value ** node.right.value)
+    big = pows.pop() if len(pows) == 1 else 0
+    samples = []
+    for n in (0, 1, 9, 10, 11, 99, 100, 101, 999, 1000, 9999, 10000, 123456):
+        w = NumberedMargin().get_width(lambda n=n: UIContent(line_count=n))
+        samples.append((n, int(w)))
+    return big, samples
+
+
 def generate() -> None:
     try:
         from prompt_toolkit.layout.screen import Char
@@ -62,6 +119,14 @@ def generate() -> None:
     except Exception:  # broken tree: keep the model compilable, the correspondence reports it
         zero, two, other, dm = [], [], [], []
         disp_measure, exact_height = False, False
+    try:
+        mouse_fixed = _probe_mouse_region()
+    except Exception:
+        mouse_fixed = False
+    try:
+        big, mw_samples = _source_constants()
+    except Exception:
+        big, mw_samples = 0, []
     body = "namespace Ptk.Gen.C11\n\n"
     body += "/-- scanned sub-ranges of the code space (half open) -/\n"
     body += "def scanned : List (Nat × Nat) := [" + ", ".join(f"({a}, {b})" for a, b in SCAN) + "]\n\n"
@@ -78,6 +143,12 @@ def generate() -> None:
     body += f"def measuresDisplayWidth : Bool := {'true' if disp_measure else 'false'}\n\n"
     body += "/-- probe: get_height_for_line wraps lines with non-1-column cells character by character -/\n"
     body += f"def exactWrappedHeight : Bool := {'true' if exact_height else 'false'}\n\n"
+    body += "/-- probe: the mouse handler covers the whole body also with a left margin (fix C11-mouse-region) -/\n"
+    body += f"def mouseRegionFixed : Bool := {'true' if mouse_fixed else 'false'}\n\n"
+    body += "/-- the 'infinite' height literal of UIContent.get_height_for_line (0 = not found / ambiguous) -/\n"
+    body += f"def heightInfinite : Nat := {big}\n\n"
+    body += "/-- (line_count, NumberedMargin.get_width) samples -/\n"
+    body += "def marginWidthSamples : List (Nat × Nat) := [" + ", ".join(f"({a}, {b})" for a, b in mw_samples) + "]\n\n"
     body += "def inRanges (rs : List (Nat × Nat)) (c : Char) : Bool := rs.any fun (a, b) => a ≤ c.toNat && c.toNat ≤ b\n\n"
     body += "/-- `utils.get_cwidth` of a one-character string -/\n"
     body += "def rawWidth (c : Char) : Nat := if inRanges zeroWidthRanges c then 0 else if inRanges wideRanges c then 2 else 1\n\n"
